@@ -531,6 +531,14 @@ def eval_convex_polygon(ctx, case):
         ctx.disagree("c15.reorder", case, [order])
 
 
+def extreme_embed(rng, p2):
+    """z = 0 embedding, random proper rotation (half of the time), scale at an end of the quantifier's range"""
+    v = np.c_[np.asarray(p2, dtype=float), np.zeros(len(p2))]
+    R = gen.random_rotation(rng) if rng.random() < 0.5 else np.eye(3)
+    v, sc = gen.c15_rescale(rng, v @ R.T)
+    return v, {"mode": "extreme", "n_true": (R @ np.array([0.0, 0.0, 1.0])).tolist(), "scale": sc}
+
+
 def convex_polygon_cases(ctx, n_perm_sets, n_random, n_interior, n_sphero):
     rng = ctx.rng
 
@@ -564,15 +572,22 @@ def convex_polygon_cases(ctx, n_perm_sets, n_random, n_interior, n_sphero):
         yield case
     for _ in range(n_interior):
         p2, info = gen.c15_convex_polygon(rng, n=int(rng.integers(3, 30)))
+        shallow = rng.random() < 0.5
         try:
-            x, depth = gen.c15_interior_point2(rng, p2)
+            x, depth = (gen.c15_shallow_interior_point2 if shallow else gen.c15_interior_point2)(rng, p2)
         except RuntimeError:      # sliver: no point deeper than the margin
             ctx.count("dropped:no-deep-interior-point")
             continue
         q2 = np.vstack([p2, x])
         perm = rng.permutation(len(q2)).tolist()
-        v, e = embed(q2)
-        ctx.count("convexpolygon:interior-point")
+        if shallow:
+            # a point interior by a clear RELATIVE margin (1.5e-3..1e-2 diameters) must be refused at every scale of the
+            # quantifier: place the set at an extreme scale (1e-3 / 1e3), rotated, so that an absolute tolerance shows
+            v, e = extreme_embed(rng, q2)
+            ctx.count("convexpolygon:interior-point:scale-%s" % ("small" if e["scale"] < 1 else "large"))
+        else:
+            v, e = embed(q2)
+        ctx.count("convexpolygon:interior-point" + (":shallow" if shallow else ""))
         yield {"kind": "convexpolygon", "expect": "reject", "why": "interior", "vertices": v[perm].tolist(),
                "p2": q2[perm].tolist(), "perm": perm, "embed": e, "depth": depth}
     for _ in range(n_sphero):
@@ -582,14 +597,15 @@ def convex_polygon_cases(ctx, n_perm_sets, n_random, n_interior, n_sphero):
                   "nan": "nan"}[rk]
         bad = rng.random() < 0.35
         if bad:
+            shallow = rng.random() < 0.5
             try:
-                x, _ = gen.c15_interior_point2(rng, p2)
+                x, _ = (gen.c15_shallow_interior_point2 if shallow else gen.c15_interior_point2)(rng, p2)
             except RuntimeError:
                 ctx.count("dropped:no-deep-interior-point")
                 continue
             p2 = np.vstack([p2, x])
         perm = rng.permutation(len(p2)).tolist()
-        v, e = embed(p2)
+        v, e = extreme_embed(rng, p2) if (bad and shallow) else embed(p2)
         ok = (not bad) and rk in ("zero", "positive")
         ctx.count("spheropolygon:radius-%s:%s" % (rk, "interior" if bad else "convex"))
         yield {"kind": "convexpolygon", "expect": "accept" if ok else "reject",
@@ -669,13 +685,14 @@ def convex_polyhedron_cases(ctx, n_valid, n_interior, n_sphero):
         yield {"kind": "convexpolyhedron", "expect": "accept", "why": "convex", "vertices": v.tolist(), "info": info}
     for _ in range(n_interior):
         v, info = gen.convex_solid(rng)
+        shallow = rng.random() < 0.5
         try:
-            x, depth = gen.c15_interior_point3(rng, v)
+            x, depth = (gen.c15_shallow_interior_point3 if shallow else gen.c15_interior_point3)(rng, v)
         except RuntimeError:
             continue
         k = int(rng.integers(len(v) + 1))
         w = np.insert(v, k, x, axis=0)
-        ctx.count("convexpolyhedron:interior-point")
+        ctx.count("convexpolyhedron:interior-point" + (":shallow" if shallow else ""))
         yield {"kind": "convexpolyhedron", "expect": "reject", "why": "interior", "vertices": w.tolist(), "info": info,
                "depth": depth, "at": k}
     for _ in range(n_sphero):
